@@ -17,6 +17,11 @@ def f_args(t, y, a, b):
     return a * np.roll(y, 1) - b * y * (1 + 0.1 * np.sin(t))
 
 
+def f_more(t, y, a, b=0.3, c=0.0):
+    """more parameters than a caller has to pass: the ones not covered by `args` keep their defaults"""
+    return a * np.roll(y, 1) - b * y * (1 + 0.1 * np.sin(t)) + c
+
+
 def f_noargs(t, y):
     return f_args(t, y, 0.8, 0.3)
 
@@ -64,6 +69,12 @@ def run(ctx):
         fun = f_args if use_args else f_noargs
         args = (a, b) if use_args else None
         consts = dict(a=a, b=b) if use_args else None
+        if use_args and rng.random() < 0.5:
+            # a right-hand side with defaulted trailing parameters and 1..3 positional args
+            fun = f_more
+            args = (a, b, rng.uniform(-0.2, 0.2))[:rng.randint(1, 3)]
+            consts = dict(zip(("a", "b", "c"), args))
+            ctx.count("args:partial=%d-of-3" % len(args))
         opts = dict(rtol=10.0 ** -rng.randint(4, 8), atol=10.0 ** -rng.randint(6, 10))
         if rng.random() < 0.5:
             opts["max_step"] = rng.choice([0.05, 0.11, 0.3])
